@@ -98,6 +98,10 @@ def _judge_step(rec, j, prev, node, base):
     if a["mech"] == "keychain" and not node.ses.same_as_fresh:
         F("C05|keychain-history|long-lived-differs-from-fresh|%s" % ("after-kc_add" if any(x["mech"] == "kc_add" for x in rec["acts"][:j]) else "passes-only"),
           "the long-lived keychain signed differently from a fresh keychain holding the same paths / secrets / scripts")
+    if a["mech"] == "lookup" and node.ses.hint_problems:
+        F("C05|sig-encoding|from-outside-signature|%s" % node.ses.hint_problems[0].split(": ")[-1],
+          "the same pass given the signatures as outside signatures (signature_hints, high-S form) instead of the keys "
+          "wrote a signature that is not canonical: %s" % node.ses.hint_problems[:3])
     if a["mech"] == "create_signed":
         # the front-end either raises or hands back a transaction: it must raise exactly when the
         # specification leaves some input failing validation
@@ -465,12 +469,13 @@ def _record_random(args):
                 e["bad"] = ses.tx.bad_solution_count()
             except Exception as ex:  # noqa
                 e["bad"], exc = -1, exc or ("bad_solution_count: %s" % ex)
-            e["canonical"] = not any(x["enc"] for x in pr) and exc is None and not any("crash" in x for x in pr)
+            e["canonical"] = (not any(x["enc"] for x in pr) and exc is None and not any("crash" in x for x in pr)
+                              and not ses.hint_problems)      # also what the pass writes from outside signatures
             e["same_as_fresh"] = bool(ses.same_as_fresh) if mech == "keychain" else True
             last_pr, last_unl = pr, [drv.unlocking_of(ses.tx, i) for i in range(n)]
             e["changed"] = [i + 1 for i in range(n) if drv.unlocking_of(ses.tx, i) != before[i]]
             e["frame"] = hashlib.sha256(repr(sorted(drv.frame_of(ses.tx).items())).encode()).hexdigest()[:16]
-            e["note"] = {"exc": exc, "stale_single": stale_single, "err": [x.get("err") for x in pr], "enc": [x["enc"] for x in pr],
+            e["note"] = {"exc": exc, "stale_single": stale_single, "hint": list(ses.hint_problems), "err": [x.get("err") for x in pr], "enc": [x["enc"] for x in pr],
                          "items": [sum(drv.n_unlocking_items(ses.net, ses.tx, i)) for i in range(n)]}
             ev.append(e)
             if e["raised"] or exc is not None:
@@ -586,6 +591,8 @@ def _trace_key(t, j, exp):
             return "C05|policy-flags|kindclass=%s|items>10=%s|expected=%s|got=%s" % (kc, items > 10, want, e["valid"][i])
         if e["reported"][i] != want:
             return "C05|is_solution_ok|kindclass=%s|items>10=%s|expected=%s|got=%s" % (kc, items > 10, want, e["reported"][i])
+    if not e["canonical"] and note.get("hint"):
+        return "C05|sig-encoding|from-outside-signature|%s" % note["hint"][0].split(": ")[-1]
     if not e["canonical"]:
         return "C05|sig-encoding|%s" % ((([x for y in (note.get("enc") or []) for x in y]) or ["?"])[0])
     return "C05|trace|unexplained"
